@@ -144,9 +144,17 @@ class GenTrace:
 
 def materialize(c, st, v):
     if isinstance(v, Arr):
-        return st.alloc(c, v)
+        # the same declared array placed at several places of the inputs is ONE array (aliasing is part of the input)
+        memo = st.__dict__.setdefault('_memo', {})
+        if id(v) not in memo:
+            memo[id(v)] = st.alloc(c, v)
+        return memo[id(v)]
     if isinstance(v, ObjSpec):
-        return st.alloc(c, Obj(v.cls, {k: materialize(c, st, x) for k, x in v.attrs.items()}))
+        # one ObjSpec instance placed at several places of the inputs is ONE object (aliasing is part of the input)
+        memo = st.__dict__.setdefault('_memo', {})
+        if id(v) not in memo:
+            memo[id(v)] = st.alloc(c, Obj(v.cls, {k: materialize(c, st, x) for k, x in v.attrs.items()}))
+        return memo[id(v)]
     if isinstance(v, list):
         return st.alloc(c, PyList([materialize(c, st, x) for x in v]))
     if isinstance(v, dict):
